@@ -93,7 +93,8 @@ def _sample_lines(ctx, rng, per):
         except Exception as e:       # a generator that needs its own context is skipped, and recorded
             ctx.stats.setdefault("skipped_generators", []).append("%s: %s" % (name, e))
             continue
-        ls = [l for l in ls if isinstance(l, str) and len(l) < 3000 and not l.startswith(("enum.", "case.", "stream.ietf_guard", "rt.", "asis.", "ss."))]
+        ls = [l for l in ls if isinstance(l, str) and len(l) < 3000 and not l.startswith(("enum.", "case.", "stream.ietf_guard", "rt.", "asis.", "ss.", "rng.", "rngint"))]   # rng.* ops install a scripted random source
+        # process-wide (randombytes_set_implementation: documented as not thread-safe, exempt in the C19 policy); sampled into a threaded workload they make OTHER threads draw from the script
         rng.shuffle(ls)
         out += ls[:per]
     return out
